@@ -246,7 +246,7 @@ def describe(c, r):
             'attributes': [[repr(J.pystr(k)), ' '.join(J.value_tokens(v))] for k, v in c['attrs']],
             'steps_after_first_format': [' '.join(line_of({**view(c, 0, []), 'steps': [st]}).split('| ', 1)[1:]) for st in c.get('steps', [])],
             'locale_codec_of_the_process': c.get('codec', 'utf8'),
-            'input_line': line_of(c),
+            'input_line': line_of(c), 'case': c,
             'implementation_records': [repr(J.pystr(J.unhx(rec['impl']))) for rec in r['recs']] if r else None,
             'model_records': [repr(J.pystr(J.unhx(rec['model']))) for rec in r['recs']] if r else None}
 
@@ -346,17 +346,18 @@ def replay(path):
     r = json.load(open(path))['replay']
     if isinstance(r, list):
         r = r[0]
-    line = r.get('input_line')
-    if not line:
+    c = r.get('case')
+    if not c:
         print(json.dumps(r, indent=1)); return 0
     vlib.gen_src(['json'])
     model = vlib.build_model('json'); impl = vlib.build_harness('json')
-    codec = r.get('locale_codec_of_the_process', 'utf8')
-    _, o, _ = vlib.run_lines(impl, [line], [codec] if codec != 'utf8' else [])
-    t = o[0].split(' ')
-    print('input          ', line, ' (locale codec %s)' % codec)
-    for n, h in enumerate(t[2:]):
-        print('implementation record %d' % (n + 1), repr(J.pystr(J.unhx(h))))
-    for n, h in enumerate(r.get('model_records') or []):
-        print('model record %d (as recorded)' % (n + 1), h)
+    res, err = run_cases(impl, model, [c])
+    print('input          ', line_of(c), ' (locale codec of the process: %s)' % c.get('codec', 'utf8'))
+    if res is None:
+        print(err); return 1
+    for n, rec in enumerate(res[0]['recs']):
+        print('record %d implementation ' % (n + 1), repr(J.pystr(J.unhx(rec['impl']))))
+        print('record %d model          ' % (n + 1), repr(J.pystr(J.unhx(rec['model']))))
+        print('record %d oracle verdict on the implementation output (1 = holds): %s' % (n + 1, rec['verdict']))
+    print('judgement:', judge(c, res[0]))
     return 0
